@@ -160,3 +160,9 @@ def find_exprs(e, pred):
 def is_const_item(e, path):
     e = e.unname() if hasattr(e, "unname") else e
     return isinstance(e, Const) and e.c.get("uneval") == path
+
+
+def run_rules(ctx, rules):
+    """Run every rule of a module: RULES = {rule_id: fn(ctx)}."""
+    for rid, fn in rules.items():
+        guarded(ctx, rid, "<%s>" % rid, lambda fn=fn: fn(ctx))
